@@ -519,7 +519,7 @@ def main():
             traces_validated_against_impl=total_cases,
             mismatches=len(mismatches), property_failures=len(propfails),
             known_findings_hit={k: v[1] for k, v in known_hit.items()},
-            exhaustive=cfg.get('exhaustive_note', ''),
+            exhaustive=bool(cfg.get('exhaustive_note')), exhaustive_scope=cfg.get('exhaustive_note', ''),
             search_after_break=searched,
         ),
         assumptions=cfg.get('assumptions', []),
